@@ -301,13 +301,14 @@ def edited_case(rng, case, name):
     for _ in range(rng.choice([1, 1, 2])):
         f = rng.choice(files)
         lines = f["body"].split(b"\n")
-        rows = [i for i, l in enumerate(lines) if b"\t" in l and not l.startswith(b"#")]
+        ti, ci, wi = cols_of(f)
+        full = lambda l: (lambda cl: 0 <= ti < len(cl) and 0 <= ci < len(cl) and cl[ti].strip() and cl[ci].strip())(l.split(b"\t"))
+        rows = [i for i, l in enumerate(lines) if b"\t" in l and not l.startswith(b"#") and full(l)]   # (a row with text and code)
         if not rows:
             continue
         i = rows[-1] if rng.random() < 0.6 else rng.choice(rows)
         kind = rng.choice(["drop", "dup", "weight", "text"])
         cols = lines[i].split(b"\t")
-        ti, ci, wi = cols_of(f)
         if kind == "drop":
             del lines[i]
         elif kind == "dup" and 0 <= ti < len(cols):
